@@ -20,7 +20,7 @@ EXPLANATION = 'price_supergradient reduces the property to gap = 0; the run eval
 
 
 def scenarios(seed, tier):
-    n = 100 if tier == 'quick' else 1200
+    n = 250 if tier == 'quick' else 2500
     rnd = random.Random(seed * 7919 + 18)
     for i in range(n):
         s = gen.gen_portfolio(random.Random(rnd.getrandbits(48)), tmax=8 if tier == 'quick' else 14, allow_mip=False, tz_prob=0.05,
